@@ -310,6 +310,8 @@ def activation(ctx, tag, A, ev, rl, fkey):
             ak = [k for k in ls.lh if keyrepr(k) == keyrepr(akey)]
             if not ak or not isinstance(ls.next.get(ak[0]), T.Tm):
                 continue
+            if ls.var is None:
+                continue
             flag_i = index_term(TR, ls.var) if TR is not None else None
             # every write of this loop to the table or to a list of indices happens on a path on which the entry's flag is set
             writes_ok = True
@@ -333,7 +335,13 @@ def activation(ctx, tag, A, ev, rl, fkey):
                         continue
                     rm = l2.next[a2[0]]
                     lists = [T.app('sorted', ls.lx[k]) for k in rml if isinstance(ls.lx.get(k), T.Tm)] + [ls.lx[k] for k in rml if isinstance(ls.lx.get(k), T.Tm)]
-                    desc = any(rm[2][0] is l2.lh[a2[0]] and l2.n is T.app('len', L) and rm[2][1] is index_term(L, T.sub(T.sub(T.app('len', L), T.ONE), l2.var)) for L in lists)
+                    desc = l2.var is not None and any(rm[2][0] is l2.lh[a2[0]] and l2.n is T.app('len', L) and rm[2][1] is index_term(L, T.sub(T.sub(T.app('len', L), T.ONE), l2.var)) for L in lists)
+                    # ... or popped off the back of the (sorted) list until it is empty: `while let Some(i) = list.pop() { table.remove(i) }`
+                    for k3 in l2.lh:
+                        pop = T.app('std::vec::Vec::pop', l2.lh[k3])
+                        if l2.kind == 'loop' and any(l2.init.get(k3) is L for L in lists) and l2.next.get(k3) is T.app('post0', pop) and rm[2][0] is l2.lh[a2[0]] and rm[2][1] is pop \
+                                and len(l2.exits) == 1 and l2.exits[0][2] is T.lnot(T.app('is:Some', pop)):
+                            desc = True
                     ok_leave = rep_ok and desc and len(rml) == 1
                     found_leave = 'writes conditioned on the entry flag: %s; removal %s' % (rep_ok, show(rm)[:160])
     ctx.check('C10.activation.leave.' + tag, A, 'active-table-leave', ok_leave,
